@@ -144,33 +144,9 @@ class Fin:
                 return ("adt", rv.get("adt"), d, [self._operand(o, vals, env) for o in rv["ops"]])
             return ("opaque", "agg")
         if "bin" in rv:
-            a = self._int(self._operand(rv["a"], vals, env), vals, env)
-            c = self._int(self._operand(rv["b"], vals, env), vals, env)
-            op = rv["bin"]
-            if op == "Eq":
-                return int(a == c)
-            if op == "Ne":
-                return int(a != c)
-            if op == "Lt":
-                return int(a < c)
-            if op == "Le":
-                return int(a <= c)
-            if op == "Gt":
-                return int(a > c)
-            if op == "Ge":
-                return int(a >= c)
-            if op == "BitAnd":
-                return a & c
-            if op == "BitOr":
-                return a | c
-            if op == "BitXor":
-                return a ^ c
-            raise NotAnalysable("binary op %s" % op)
+            return ("lazybin", rv["bin"], self._operand(rv["a"], vals, env), self._operand(rv["b"], vals, env))
         if "un" in rv:
-            a = self._int(self._operand(rv["a"], vals, env), vals, env)
-            if rv["un"] == "Not":
-                return 1 - a
-            raise NotAnalysable("unary op %s" % rv["un"])
+            return ("lazyun", rv["un"], self._operand(rv["a"], vals, env))
         if "cast" in rv:
             return self._operand(rv["cast"], vals, env)
         raise NotAnalysable("rvalue %s" % list(rv)[:2])
@@ -213,6 +189,10 @@ class Fin:
                     v = v[3][e["f"]]
                 elif isinstance(v, tuple) and v and v[0] == "sym":
                     v = ("sym", v[1] + "." + e["n"], e["ty"])
+                elif isinstance(v, tuple) and v and v[0] == "lazybin" and v[1].endswith("WithOverflow"):
+                    v = 0 if e["f"] == 1 else ("opaque", "arith")
+                elif isinstance(v, tuple) and v and v[0] == "opaque":
+                    v = ("opaque", "field")
                 else:
                     raise NotAnalysable("field of %s" % (v,))
             elif isinstance(e, dict) and "dc" in e:
@@ -231,6 +211,21 @@ class Fin:
                 if v[1] in env:
                     return env[v[1]]
                 raise Need(v[1], v[2])
+            if v[0] == "lazybin":
+                op = v[1]
+                a = self._int(v[2], vals, env)
+                c = self._int(v[3], vals, env)
+                table = {"Eq": lambda: int(a == c), "Ne": lambda: int(a != c), "Lt": lambda: int(a < c),
+                         "Le": lambda: int(a <= c), "Gt": lambda: int(a > c), "Ge": lambda: int(a >= c),
+                         "BitAnd": lambda: a & c, "BitOr": lambda: a | c, "BitXor": lambda: a ^ c}
+                if op not in table:
+                    raise NotAnalysable("binary op %s" % op)
+                return table[op]()
+            if v[0] == "lazyun":
+                a = self._int(v[2], vals, env)
+                if v[1] == "Not":
+                    return 1 - a
+                raise NotAnalysable("unary op %s" % v[1])
             if v[0] == "discr_of":
                 inner = self._place(v[1], vals, env)
                 if isinstance(inner, tuple) and inner[0] == "adt":
